@@ -64,3 +64,12 @@ def c17_diagonal_copy(v):
     non-injective morphism application never enters it. Tagged /diagonal-copy only when, during
     that very run, a diagonal copy was observed to differ from the diagonal of the plain copy."""
     return v["class"].endswith("/diagonal-copy") and _has_member_type(v)
+
+
+@witness("c05_member_duplicate")
+def c05_member_duplicate(v):
+    """Known finding C05/KF-3: the iterator of a member relation lists a tuple twice in a state
+    that is not closed. The class is given by the harness only when the iterator's set of tuples is
+    right and only its multiplicity is wrong, for a relation declared inside a model block."""
+    src = v.get("case", {}).get("source", "")
+    return v["class"].startswith("iter-duplicate/member-relation") and "model " in src
